@@ -4,6 +4,7 @@
 #[path = "../../../rt/src/proto.rs"]
 mod proto;
 mod gen_std;
+mod gen_derive;
 
 use proto::*;
 use scale_info::{form::PortableForm, Field, MetaType, Path, PortableRegistry, Registry, Type, TypeDef, TypeParameter, Variant};
@@ -85,6 +86,16 @@ fn refs_of(t: &Type<PortableForm>) -> Vec<u32> {
     v
 }
 
+/// `type_info()` of `m` with table-index references, followed by the (index, expression) map of the references used
+pub fn tinfo_text(m: &MetaType, table: &[(MetaType, &'static str)]) -> String {
+    let t = meta_ty_to_indexed(&m.type_info(), table);
+    let mut rs = refs_of(&t);
+    rs.sort();
+    rs.dedup();
+    let map = plist(&rs, |x| format!("{} {}", x, table.get(*x as usize).map(|e| e.1).unwrap_or("missing")));
+    format!("{} {}", pty(&t), map)
+}
+
 fn main() {
     let args: Vec<String> = std::env::args().collect();
     let mode = args.get(1).map(|s| s.as_str()).unwrap_or("");
@@ -97,6 +108,13 @@ fn main() {
                 writeln!(w, "{}", s).unwrap();
             };
             gen_std::std_cases(&mut emit);
+        }
+        "derive" => {
+            let table = gen_derive::table();
+            let mut emit = |s: String| {
+                writeln!(w, "{}", s).unwrap();
+            };
+            gen_derive::derive_cases(&table, &mut emit);
         }
         "meta" => {
             let table = gen_std::table();
